@@ -539,7 +539,7 @@ theorem facAddDecimals_tr {w w' : World} {sender denom decimals : Nat}
     exact Tr.static rfl rfl (stat_of_eq rfl rfl rfl)
 
 theorem facCreatePair_tr {w w' : World} {sender : Nat} {a0 a1 : Asset} {req : Requirements} {comm : Option Nat}
-    {np nl : Nat} (h : facCreatePair w sender a0 a1 req comm np nl = .ok w')
+    {lpDec : Option Nat} {np nl : Nat} (h : facCreatePair w sender a0 a1 req comm lpDec np nl = .ok w')
     (hfp : w.pair np = none) (hft : w.tok nl = none) (hN : N np) : Tr S Mn N w w' := by
   unfold facCreatePair at h
   split at h
@@ -555,6 +555,11 @@ theorem facCreatePair_tr {w w' : World} {sender : Nat} {a0 a1 : Asset} {req : Re
   obtain ⟨d0, _, d1, _, h⟩ := h
   split at h
   · cases h
+  split at h
+  · cases h
+  have h' : ∃ cb : Bool, (if cb = true then (.error .err : M World) else _) = .ok w' := ⟨_, h⟩
+  clear h
+  obtain ⟨cb, h⟩ := h'
   split at h
   · cases h
   injection h with h
@@ -592,7 +597,7 @@ theorem facCreatePair_tr {w w' : World} {sender : Nat} {a0 a1 : Asset} {req : Re
 
 theorem facExec_tr {w w' : World} {s : Nat} {funds : List (Nat × Nat)} {m : FacMsg}
     (h : facExec w s funds m = .ok w') (hs : S s)
-    (hfresh : ∀ a0 a1 req c np nl, m = .createPair a0 a1 req c np nl → w.pair np = none ∧ w.tok nl = none ∧ N np) :
+    (hfresh : ∀ a0 a1 req c ld np nl, m = .createPair a0 a1 req c ld np nl → w.pair np = none ∧ w.tok nl = none ∧ N np) :
     Tr S Mn N w w' := by
   unfold facExec at h
   simp only [bind_ok_iff] at h
@@ -609,8 +614,8 @@ theorem facExec_tr {w w' : World} {s : Nat} {funds : List (Nat × Nat)} {m : Fac
     injection h with h
     subst h
     exact Tr.static rfl rfl (stat_of_eq rfl rfl rfl)
-  | createPair a0 a1 req comm np nl =>
-    obtain ⟨f1, f2, f3⟩ := hfresh a0 a1 req comm np nl rfl
+  | createPair a0 a1 req comm lpDec np nl =>
+    obtain ⟨f1, f2, f3⟩ := hfresh a0 a1 req comm lpDec np nl rfl
     exact facCreatePair_tr h (by rw [hpair]; exact f1) (by rw [htok]; exact f2) f3
   | addDecimals d k => exact facAddDecimals_tr h
   | migratePair p c =>
@@ -639,16 +644,16 @@ def MintOf (op : Op) (z : Nat) : Prop :=
 
 /-- the only address at which an operation may create a pair contract -/
 def NewOf (op : Op) (q : Nat) : Prop :=
-  ∃ s f a0 a1 req c nl, op = .factory s f (.createPair a0 a1 req c q nl)
+  ∃ s f a0 a1 req c ld nl, op = .factory s f (.createPair a0 a1 req c ld q nl)
 
 /-- the two facts `FreshOK` provides (the only places where its shape is used) -/
 theorem freshOK_pair {w : World} {op : Op} {s : Nat} {f : List (Nat × Nat)} {a0 a1 : Asset} {req : Requirements}
-    {c : Option Nat} {np nl : Nat} (hf : FreshOK w op) (e : op = .factory s f (.createPair a0 a1 req c np nl)) :
-    w.pair np = none := (hf s f a0 a1 req c np nl e).1
+    {c ld : Option Nat} {np nl : Nat} (hf : FreshOK w op) (e : op = .factory s f (.createPair a0 a1 req c ld np nl)) :
+    w.pair np = none := (hf s f a0 a1 req c ld np nl e).1
 
 theorem freshOK_tok {w : World} {op : Op} {s : Nat} {f : List (Nat × Nat)} {a0 a1 : Asset} {req : Requirements}
-    {c : Option Nat} {np nl : Nat} (hf : FreshOK w op) (e : op = .factory s f (.createPair a0 a1 req c np nl)) :
-    w.tok nl = none := (hf s f a0 a1 req c np nl e).2.1
+    {c ld : Option Nat} {np nl : Nat} (hf : FreshOK w op) (e : op = .factory s f (.createPair a0 a1 req c ld np nl)) :
+    w.tok nl = none := (hf s f a0 a1 req c ld np nl e).2.1
 
 theorem pairExec_isSome {w : World} {s p : Nat} {f : List (Nat × Nat)} {m : PairMsg} {r : World × Out}
     (h : pairExec w s p f m = .ok r) : (w.pair p).isSome := by
@@ -695,9 +700,9 @@ theorem exec_tr {name : Asset → String} {w w' : World} {op : Op} {out : Out}
     simp only [exec, bind_ok_iff, pure_ok_iff, Prod.mk.injEq] at h
     obtain ⟨w1, h1, rfl, _⟩ := h
     refine facExec_tr h1 hact ?_
-    intro a0 a1 req c np nl e
-    have e' : Op.factory s f m = .factory s f (.createPair a0 a1 req c np nl) := by rw [e]
-    exact ⟨freshOK_pair hf e', freshOK_tok hf e', ⟨s, f, a0, a1, req, c, nl, e'⟩⟩
+    intro a0 a1 req c ld np nl e
+    have e' : Op.factory s f m = .factory s f (.createPair a0 a1 req c ld np nl) := by rw [e]
+    exact ⟨freshOK_pair hf e', freshOK_tok hf e', ⟨s, f, a0, a1, req, c, ld, nl, e'⟩⟩
 
 /-- C07, "can only increase": an account that is not the actor, not a pair contract and not the router — in
 particular the designated receiver of a swap, provision or route — loses nothing in any asset -/
